@@ -52,9 +52,9 @@ static PyObject* PyCGauleg_cgauleg(PyObject* self, PyObject* args) {
 
 		z=cos( pi*(i-0.25)/(npts+.5) );
 
-		abszdiff = fabs(z-z1);
-
-		while (abszdiff > EPS) 
+		// always iterate at least once: the starting guess can agree with
+		// the stale z1 (e.g. npts=1), which would leave pp undefined
+		do
 		{
 			p1 = 1.0;
 			p2 = 0.0;
@@ -70,7 +70,7 @@ static PyObject* PyCGauleg_cgauleg(PyObject* self, PyObject* args) {
 
 			abszdiff = fabs(z-z1);
 
-		}
+		} while (abszdiff > EPS);
 
 		x[i-1] = xm - xl*z;
 		x[npts+1-i-1] = xm + xl*z;
